@@ -475,7 +475,8 @@ func runOpsCase(c OpsCase) *vt.Outcome {
 	at, shape, detail := len(c.Ops)-1, streamShape(vals), ""
 	prev := vals
 	lens := []int{len(vals)} // lens[j] = number of values entering operator j
-	var samAt []zed.Value
+	var samAt, vamAt []zed.Value
+	found := false
 	for j := range c.Ops {
 		p := strings.Join(c.Ops[:j+1], " | ")
 		s, serr := runSam(c.Input.Zctx, vals, p)
@@ -488,7 +489,7 @@ func runOpsCase(c OpsCase) *vt.Outcome {
 		}
 		if ps, d := whole(v, s); ps != "" {
 			at, sym, shape, detail = j, ps, streamShape(prev), d
-			samAt = s
+			samAt, vamAt, found = s, v.vals, true
 			break
 		}
 		lens = append(lens, len(s))
@@ -498,10 +499,16 @@ func runOpsCase(c OpsCase) *vt.Outcome {
 	sig := "C09/ops/" + opKind(op) + "(" + shape + ")/" + symFamily(sym)
 	var minimal any = c
 	how := ""
-	if !strings.HasPrefix(sym, "panic(") && !strings.HasPrefix(sym, "query-error(") && samAt != nil {
+	if !strings.HasPrefix(sym, "panic(") && !strings.HasPrefix(sym, "query-error(") && found {
 		// Root cause by a neutralise-and-recheck step: feed the failing operator ALONE, through the vector runtime, the
 		// values that entered it (the agreed output of the prefix, re-vectorised from a fresh VNG object).
-		if inData, err := vngBytes(prev); err == nil {
+		inData, err := vngBytes(prev)
+		if err != nil || len(prev) == 0 {
+			// cannot stage: classify the operator's difference in the pipeline itself
+			if rc := singleOpRootCause(c.Input.Zctx, op, shape, prev, samAt, vamResult{vals: vamAt}); rc != "" {
+				sig = rc
+			}
+		} else {
 			staged := runVamOps(inData, c.Ops[at:at+1])
 			ssym, sdetail := whole(staged, samAt)
 			switch {
